@@ -23,7 +23,7 @@ theorem live_while_handle (progs : List (List Call)) (sched : List Nat) (t : Thr
     (stepThread (run (init progs) sched) t).2.pc = .inside := by
   have h := reachable_inv progs sched
   have : (run (init progs) sched).strong > 0 := by rw [h.strong_eq, hh]; simp; omega
-  unfold stepThread; rw [hpc, hc]; simp [this]
+  unfold stepThread; rw [hpc, hc]; simp [upgradeStep, this]
 
 /-- a call that entered is delivered (it leaves the recorder with result `delivered`) -/
 theorem entered_is_delivered (s : Sys) (t : Thread) (rest : List Call)
@@ -81,11 +81,10 @@ theorem ended_stays_ended (sched : List Nat) : ∀ s, Recoverable.Inv s → s.st
       cases e with
       | noop => exact h0
       | start => exact h0
-      | enter hp hpos => omega
+      | enter t' hp hpos => omega
       | ignored => exact h0
-      | leaveLast hp h1 => omega
-      | leaveMore hp h1 => have : insN t = 1 := by simp [insN, hp]
-                           omega
+      | leaveLast t' hp h1 => omega
+      | leaveMore t' hp h1 => omega
       | unwrap hp hh h1 => omega
       | hdropLast hp hh h1 => omega
       | hdropMore hp hh h1 => rw [hh] at hse; simp at hse; omega
@@ -99,7 +98,7 @@ theorem inert_after_end (progs : List (List Call)) (sched more : List Nat) (t : 
     (stepThread s t).2.results = t.results ++ [Res.ignored] ∧ (stepThread s t).1 = s := by
   have hz := ended_stays_ended more _ (reachable_inv progs sched) h0
   simp only
-  unfold stepThread; rw [hpc, hc]; simp [hz, Thread.advance]
+  unfold stepThread; rw [hpc, hc]; simp [upgradeStep, hz, Thread.advance]
 
 /-- recovery or the final drop are exactly the states with count zero and no handle -/
 theorem ended_iff (progs : List (List Call)) (sched : List Nat) :
@@ -123,6 +122,122 @@ theorem into_inner_returns_when_quiet (progs : List (List Call)) (sched : List N
   have h := reachable_inv progs sched
   have : (run (init progs) sched).strong = 1 := by rw [h.strong_eq, hh, hi]; simp
   unfold stepThread; rw [hpc, hc]; simp [hh, this]
+
+/-! ### emissions in which the wrapped recorder panics, or re-enters the wrapper; `install`
+
+The wrapper keeps no state of its own between calls: whatever a forwarded call does (return, unwind, emit again
+through the same wrapper), the only thing that changes is the strong count, and it is back where it was when the
+call is over.  So a thread that survived a panic of the recorder is served like any other afterwards, and a
+re-entrant emission — made while the same thread holds a strong reference — can never find the recorder gone. -/
+
+/-- the three kinds of emission -/
+def isEmission (c : Call) : Prop := c = .emit ∨ c = .emitPanic ∨ c = .emitNested
+
+/-- **live while the handle is alive, for every kind of emission** (plain, panicking recorder, re-entrant
+    recorder): the upgrade succeeds and the call enters the recorder; the system takes the `enter` step -/
+theorem live_while_handle_any (progs : List (List Call)) (sched : List Nat) (t : Thread) (c : Call) (rest : List Call)
+    (hh : (run (init progs) sched).handle = true) (hpc : t.pc = .upgrade) (hc : t.calls = c :: rest)
+    (he : isEmission c) :
+    ((stepThread (run (init progs) sched) t).2.pc = .inside ∨ (stepThread (run (init progs) sched) t).2.pc = .nUpgrade)
+    ∧ (stepThread (run (init progs) sched) t).1 = enter (run (init progs) sched)
+    ∧ (stepThread (run (init progs) sched) t).2.results = t.results := by
+  have h := reachable_inv progs sched
+  have : (run (init progs) sched).strong > 0 := by rw [h.strong_eq, hh]; simp; omega
+  rcases he with he | he | he <;> subst he <;> unfold stepThread <;> rw [hpc, hc] <;> simp [upgradeStep, this]
+
+/-- **a panic of the wrapped recorder leaks nothing**: the unwinding call leaves the system in exactly the state a
+    normal return would have left it in (strong reference released, recorder finalised iff it was the last one);
+    only the thread's own result differs.  Together with `live_while_handle_any` (which asks nothing about the
+    thread's history): after a panic the same thread's next emission is delivered while the handle is alive. -/
+theorem panic_unwinds_like_return (s : Sys) (t : Thread) (rest : List Call)
+    (hpc : t.pc = .inside) (hc : t.calls = .emitPanic :: rest) :
+    (stepThread s t).1 = (stepThread s { t with calls := .emit :: rest }).1
+    ∧ (stepThread s t).2.results = t.results ++ [Res.panicked]
+    ∧ (stepThread s t).2.calls = rest := by
+  unfold stepThread; rw [hpc, hc]; simp [leaveStep, Thread.advance, hc]
+
+/-- **a re-entrant emission always reaches the recorder**: in every interleaving, a thread that is inside the
+    recorder (outer call of an `emitNested`) and emits again through the wrapper finds the count > 0 — whatever
+    happened to the handle meanwhile — enters a second time, and `into_inner` cannot succeed before both calls
+    have left (`into_inner_exclusive`) -/
+theorem nested_always_delivered (progs : List (List Call)) (sched : List Nat) (tid : Nat) (t : Thread) (rest : List Call)
+    (hg : (run (init progs) sched).threads[tid]? = some t)
+    (hpc : t.pc = .nUpgrade) (hc : t.calls = .emitNested :: rest) :
+    (stepThread (run (init progs) sched) t).2.pc = .nInside
+    ∧ (stepThread (run (init progs) sched) t).1 = enter (run (init progs) sched) := by
+  have h := reachable_inv progs sched
+  have hle := insN_le_insCount _ tid t hg
+  have h1 : insN t = 1 := by simp [insN, pcIns, hpc]
+  have : (run (init progs) sched).strong > 0 := by rw [h.strong_eq, h.inside_eq]; omega
+  unfold stepThread; rw [hpc, hc]; simp [this]
+
+/-- the inner call of a re-entrant emission returns to the outer call (result `nestedDelivered`), never
+    finalising the recorder: the outer call still holds a reference -/
+theorem nested_leave_keeps_recorder (progs : List (List Call)) (sched : List Nat) (tid : Nat) (t : Thread) (rest : List Call)
+    (hg : (run (init progs) sched).threads[tid]? = some t)
+    (hpc : t.pc = .nInside) (hc : t.calls = .emitNested :: rest) :
+    (stepThread (run (init progs) sched) t).2.pc = .inside
+    ∧ (stepThread (run (init progs) sched) t).2.results = t.results ++ [Res.nestedDelivered]
+    ∧ (stepThread (run (init progs) sched) t).1.finalised = (run (init progs) sched).finalised
+    ∧ (stepThread (run (init progs) sched) t).1.strong > 0 := by
+  have h := reachable_inv progs sched
+  have hle := insN_le_insCount _ tid t hg
+  have h2 : insN t = 2 := by simp [insN, pcIns, hpc]
+  have hs : (run (init progs) sched).strong ≥ 2 := by rw [h.strong_eq, h.inside_eq]; omega
+  have hne : (run (init progs) sched).strong ≠ 1 := by omega
+  unfold stepThread; rw [hpc, hc]; simp [release, hne]; omega
+
+/-- **a failed install hands the recorder back intact** (last clause of the property): whatever recorder `g`
+    occupies the global cell and whichever recorder `id` is being installed, `install` leaves the cell alone and
+    returns recorder `id` itself, recovered through `into_inner`, finalised zero times -/
+theorem failed_install_hands_back (g id : Nat) :
+    install (some g) id = (some g, .handedBack id 0 true) := rfl
+
+/-- a successful install occupies the cell; the pair then lives as `init` (handle alive, count 1), to which
+    every theorem above applies -/
+theorem install_success (id : Nat) (progs : List (List Call)) :
+    install none id = (some id, .installed) ∧ (init progs).handle = true ∧ (init progs).strong = 1 := ⟨rfl, rfl, rfl⟩
+
+/-- on the error path of `install` the pair is only ever in one of three states, under EVERY schedule (thread
+    ids that do not exist included): built, about to try the unwrap, recovered -/
+theorem failed_install_states (sched : List Nat) :
+    failedInstallSys sched = failedInstallSys [] ∨ failedInstallSys sched = failedInstallSys [0]
+    ∨ failedInstallSys sched = failedInstallSys [0, 0] := by
+  have key : ∀ (sched : List Nat) (s : Sys),
+      (s = failedInstallSys [] ∨ s = failedInstallSys [0] ∨ s = failedInstallSys [0, 0]) →
+      (run s sched = failedInstallSys [] ∨ run s sched = failedInstallSys [0] ∨ run s sched = failedInstallSys [0, 0]) := by
+    intro sched
+    induction sched with
+    | nil => intro s h; exact h
+    | cons tid ts ih =>
+      intro s h
+      refine ih (step s tid) ?_
+      rcases h with h | h | h <;> subst h <;> cases tid with
+      | zero => first | exact Or.inr (Or.inl rfl) | exact Or.inr (Or.inr rfl)
+      | succ n => first | exact Or.inl rfl | exact Or.inr (Or.inl rfl) | exact Or.inr (Or.inr rfl)
+  exact key sched _ (Or.inl rfl)
+
+/-- … hence, in every schedule, the recorder is never finalised by the library, nothing is ever inside it, the
+    unwrap never races anything, and the very first unwrap attempt succeeds -/
+theorem failed_install_intact (sched : List Nat) :
+    (failedInstallSys sched).finalised = 0 ∧ (failedInstallSys sched).inside = 0
+    ∧ (failedInstallSys sched).unwrapBusy = false ∧ (failedInstallSys sched).enteredAfterEnd = false
+    ∧ (failedInstallSys (0 :: 0 :: sched)).recovered = true := by
+  have hrec : (failedInstallSys (0 :: 0 :: sched)).recovered = true := by
+    have key : ∀ (sched : List Nat) (s : Sys), s = failedInstallSys [0, 0] → run s sched = failedInstallSys [0, 0] := by
+      intro sched
+      induction sched with
+      | nil => intro s h; exact h
+      | cons tid ts ih =>
+        intro s h
+        refine ih (step s tid) ?_
+        subst h
+        cases tid with
+        | zero => rfl
+        | succ n => rfl
+    have : failedInstallSys (0 :: 0 :: sched) = run (failedInstallSys [0, 0]) sched := rfl
+    rw [this, key sched _ rfl]; rfl
+  rcases failed_install_states sched with h | h | h <;> rw [h] <;> exact ⟨rfl, rfl, rfl, rfl, hrec⟩
 
 /-! ### the full statement "after the handle is dropped … ignored" is FALSE of the code (known finding)
 
@@ -159,6 +274,14 @@ example :
     ∧ s.recovered = true ∧ s.finalised = 0 ∧ s.unwrapBusy = false := by decide
 
 
+example :   -- a recorder that panics, then the same thread emits again; a re-entrant emission racing into_inner
+    let s := run (init [[.emitPanic, .emit], [.emitNested], [.intoInner]]) [0, 1, 2, 0, 1, 2, 0, 1, 2, 1, 0, 0, 1, 2, 2, 0]
+    s.threads.map (·.results) = [[.panicked, .delivered], [.nestedDelivered, .delivered], [.recovered]]
+    ∧ s.recovered = true ∧ s.finalised = 0 ∧ s.unwrapBusy = false := by decide
+
+example : install none 7 = (some 7, .installed) ∧ install (some 7) 9 = (some 7, .handedBack 9 0 true) := by decide
+
+
 /-! ### source facts (regenerated from /repo on every run)
 
 The step machine has ONE emission shape: upgrade the weak reference, call the wrapped recorder, drop the strong
@@ -175,5 +298,29 @@ theorem src_weak_forwarding :
        ("register_gauge", "recorder.upgrade recorder.register_gauge noop:Gauge"),
        ("register_histogram", "recorder.upgrade recorder.register_histogram noop:Histogram")]
     ∧ Generated.recover_into_inner_calls = ["Arc::try_unwrap"] := by decide
+
+/-- the whole bodies behind the step machine (comments and the cfg(metrics_verif) yield points removed, whitespace
+    collapsed).  They pin what calling names alone cannot: the handle RETURNED by the wrapped recorder is the
+    value of the forwarding arm (not thrown away), the arguments are passed on untouched, `into_inner` is a bare
+    retry loop around `Arc::try_unwrap` with no counter / give-up branch, `install` returns the handle on `Ok` and
+    on `Err` recovers through `into_inner` and hands that very recorder back, `build` moves the one `Arc` into the
+    handle and gives the wrapper only a `Weak`; and the file has no `unsafe`, `transmute`, `ptr::read`,
+    `mem::forget`, `ManuallyDrop`, thread-local or static state, `Drop` impl or `Arc` clone — exactly one `Arc::new`. -/
+theorem src_recoverable_bodies :
+    Generated.recover_into_inner_body
+      = "{ loop { match Arc::try_unwrap(self.handle) { Ok(recorder) => break recorder, Err(handle) => { self.handle = handle; } } } }"
+    ∧ Generated.recover_install_body
+      = "{ let (wrapped, handle) = self.build(); match metrics::set_global_recorder(wrapped) { Ok(()) => Ok(handle), Err(_) => { let recorder = handle.into_inner(); Err(SetRecorderError(recorder)) } } }"
+    ∧ Generated.recover_build_body
+      = "{ let wrapped = WeakRecorder::from_arc(&self.handle); (wrapped, RecoveryHandle { handle: self.handle }) }"
+    ∧ Generated.recover_from_arc_body = "{ Self { recorder: Arc::downgrade(recorder) } }"
+    ∧ Generated.weak_bodies =
+      [("describe_counter", "{ if let Some(recorder) = self.recorder.upgrade() { recorder.describe_counter(key, unit, description); } }"),
+       ("describe_gauge", "{ if let Some(recorder) = self.recorder.upgrade() { recorder.describe_gauge(key, unit, description); } }"),
+       ("describe_histogram", "{ if let Some(recorder) = self.recorder.upgrade() { recorder.describe_histogram(key, unit, description); } }"),
+       ("register_counter", "{ if let Some(recorder) = self.recorder.upgrade() { recorder.register_counter(key, metadata) } else { Counter::noop() } }"),
+       ("register_gauge", "{ if let Some(recorder) = self.recorder.upgrade() { recorder.register_gauge(key, metadata) } else { Gauge::noop() } }"),
+       ("register_histogram", "{ if let Some(recorder) = self.recorder.upgrade() { recorder.register_histogram(key, metadata) } else { Histogram::noop() } }")]
+    ∧ Generated.recover_file_flagged_tokens = ["Arc::new"] := ⟨rfl, rfl, rfl, rfl, rfl, rfl⟩
 
 end MetricsVerif.C20
